@@ -1075,6 +1075,27 @@ func c12CheckTime(c c12TimeCase) engine.Result {
 				one(ns)
 				res.Evals++
 			}
+			// the same on an object that was marked empty before (and on one marked empty and non-empty again):
+			// the time clause speaks about setting and reading back, whatever else was done to the object
+			for k := 0; k < 2; k++ {
+				cl2, cc2 := ebp.CreateCableLabsEbp(), ebp.CreateComcastEBP()
+				var y ebp.EncoderBoundaryPoint = &cc2
+				if c.Tag == ref.EBPTagCableLabs {
+					y = &cl2
+				}
+				y.SetIsEmpty(true)
+				if k == 1 {
+					y.SetIsEmpty(false)
+					y.SetTimeFlag(true)
+				}
+				keep := x
+				x = y
+				for _, ns := range []int64{0, 1, 500000000, 999999999} {
+					one(ns)
+					res.Evals++
+				}
+				x = keep
+			}
 		} else {
 			for ns := c.From; ns < c.To; ns += c.Step {
 				one(ns)
@@ -1249,7 +1270,7 @@ func init() {
 			},
 			&engine.Enum[c12TimeCase]{
 				Name:  "time",
-				Rule:  "SetEBPTime(t); EBPTime() must be within 1 ns of t (t given in UTC, and every third call as the same instant in a fixed zone UTC-5 / UTC+5:30). Both flavours x boundary seconds (first/last 3 representable seconds 1968-01-20T03:14:08Z / 2104-02-26T09:42:23Z, 3 seconds either side of the 2036-02-07T06:28:16Z era switch, unix -1/0/1, mid-era values, every single-bit and all-but-one-bit pattern of the low 31 seconds bits in both eras) x boundary nanoseconds (0..1000, 999999000..999999999, everything within 4 of a multiple of 5^9); plus for 8 seconds (first, 2020-01-01, last of era 0, first of era 1, mid era 1, last, unix 0, 2014-04-08T13:44:56Z) every 997th nanosecond (thorough: every one of the 10^9 nanoseconds, 2*10^6 per case); non-trivial = every (second, nanosecond) pair",
+				Rule:  "SetEBPTime(t); EBPTime() must be within 1 ns of t, also on an object that was marked empty before (t given in UTC, and every third call as the same instant in a fixed zone UTC-5 / UTC+5:30). Both flavours x boundary seconds (first/last 3 representable seconds 1968-01-20T03:14:08Z / 2104-02-26T09:42:23Z, 3 seconds either side of the 2036-02-07T06:28:16Z era switch, unix -1/0/1, mid-era values, every single-bit and all-but-one-bit pattern of the low 31 seconds bits in both eras) x boundary nanoseconds (0..1000, 999999000..999999999, everything within 4 of a multiple of 5^9); plus for 8 seconds (first, 2020-01-01, last of era 0, first of era 1, mid era 1, last, unix 0, 2014-04-08T13:44:56Z) every 997th nanosecond (thorough: every one of the 10^9 nanoseconds, 2*10^6 per case); non-trivial = every (second, nanosecond) pair",
 				Gen:   c12GenTime,
 				Check: c12CheckTime, Batch: 1,
 			},
